@@ -326,6 +326,24 @@ def loader_sequences(ctx, scratch, count):
 
 
 def run(ctx: C.Ctx):
+    from .. import shapes_static, translate_boxes
+    offenders, table = shapes_static.static_part(ctx, T=translate_boxes, stem="Boxes")
+    n_before = len(ctx.violations)
+    _dynamic(ctx)
+    if offenders:
+        why = {t["site"]: t.get("why") for t in table if not t["found"]}
+        names = ", ".join("box_" + o + (f" (untranslatable: {why[o]})" if why.get(o) else "") for o in offenders)
+        if any(v.kind == "concrete" for v in ctx.violations[n_before:]):
+            ctx.notes.append("generated box theorems that no longer check: " + names)
+        else:
+            ctx.violation("no-failing-input-found",
+                          "generated box theorem(s) no longer check: " + names + " – the differential run on the real helpers found no wrong answer",
+                          {"signature": "box-obligation:" + offenders[0], "offenders": offenders, "why": why},
+                          broken="theorem(s) " + ", ".join("PsVerif.Gen.box_" + o for o in offenders) + " (PsVerif/Generated/Boxes.lean, regenerated "
+                                 "from pysensors/utils/_constraints.py)")
+
+
+def _dynamic(ctx):
     scratch = tempfile.mkdtemp(prefix="psverif_c13_")
     try:
         box_part(ctx, ctx.scale(150, 3000))
